@@ -500,6 +500,46 @@ fn single_forms<F: linfa::Float>(em: &mut Em, kind: &str, pool64: &Array2<f64>, 
     });
 }
 
+/// model-level tie of the score-table family: the `n x k` score matrix the real model takes its arg-max of
+/// goes to the driver (`tableBatch` reads it as the class-major table), which answers the class index per
+/// row; `idx()` = what the real predictor returns.  A row with several exactly maximal scores is written as
+/// their set when the class returned is one of them (the statement fixes no tie-break).
+fn table_case(em: &mut Em, kind: &str, sc: &Array2<f64>, idx: &dyn Fn() -> Vec<usize>) {
+    if sc.iter().any(|v| !v.is_finite()) {
+        em.count(&format!("table:nonfinite_scores:{}", kind));
+        return;
+    }
+    em.count(&format!("table:{}", kind));
+    let op = format!("table kind={} k={} scores={}", kind, sc.ncols(), hexrows(sc));
+    let class = format!("table:{}", kind);
+    em.case_valid(op, &class, |ctx| {
+        let out = idx();
+        ctx.require(out.len() == sc.nrows(), "one_output_per_row", &class, || format!("{} outputs for {} rows", out.len(), sc.nrows()));
+        let cells: Vec<String> = sc
+            .rows()
+            .into_iter()
+            .zip(out.iter())
+            .map(|(r, l)| {
+                let mx = r.iter().cloned().fold(f64::NEG_INFINITY, f64::max);
+                let w: Vec<usize> = (0..r.len()).filter(|c| r[*c] == mx).collect();
+                ctx.require(w.contains(l), "label_of_highest_score", &class, || format!("class {} returned, scores {:?}", l, r.to_vec()));
+                if w.len() > 1 && w.contains(l) { format!("t{}", w.iter().map(|x| x.to_string()).collect::<Vec<_>>().join("|")) } else { l.to_string() }
+            })
+            .collect();
+        format!("ok {}", cells.join(","))
+    });
+}
+
+/// model-level tie of the threshold family: decision values of the real model, `threshBatch` in the driver
+fn thresh_case(em: &mut Em, kind: &str, dec: &Array1<f64>, thr: f64, lab: &dyn Fn() -> Vec<bool>) {
+    if dec.iter().any(|v| v.is_nan()) {
+        return;
+    }
+    em.count(&format!("thresh:{}", kind));
+    let op = format!("thresh kind={} thr={} dec={}", kind, hex64(thr), list(dec.iter(), |x| hex64(*x)));
+    em.case_valid(op, &format!("thresh:{}", kind), |_ctx| format!("ok {}", list(lab().iter(), |b| b.to_string())));
+}
+
 fn top2_gap(v: &[f64]) -> f64 {
     if v.len() < 2 {
         return f64::INFINITY;
@@ -632,7 +672,8 @@ fn one_round(em: &mut Em, rng: &mut Rng) {
                         mixed[(2 * i + 1, j)] = pool[(i, j)] * 16.0 + 40.0;
                     }
                 }
-                sweep_model::<f64, _, _>(em, rng, "gmm", &m, &mixed, &ustr, &margin)
+                sweep_model::<f64, _, _>(em, rng, "gmm", &m, &mixed, &ustr, &margin);
+                table_case(em, "gmm", &m.predict_proba(&mixed), &|| m.predict(&mixed).to_vec());
             }
             Err(_) => fail_fit(em, "gmm"),
         }
@@ -720,7 +761,13 @@ fn one_round(em: &mut Em, rng: &mut Rng) {
         Ok(m) => {
             let mm = m.clone();
             let margin = move |r: ArrayView1<f64>| (mm.predict_probabilities(&row2(r))[0] - 0.5).abs();
-            sweep_model::<f64, _, _>(em, rng, "logistic_binary", &m, &pool, &bstr, &margin)
+            sweep_model::<f64, _, _>(em, rng, "logistic_binary", &m, &pool, &bstr, &margin);
+            // default threshold 0.5 (never changed here); `true` = the model's positive class (which of the two
+            // labels that is depends on the training targets: `labels().pos`)
+            thresh_case(em, "logistic_binary", &m.predict_probabilities(&pool), 0.5, &|| {
+                let pos = m.labels().pos.class;
+                m.predict(&pool).iter().map(|b| *b == pos).collect()
+            });
         }
         Err(_) => fail_fit(em, "logistic_binary"),
     }
@@ -729,7 +776,11 @@ fn one_round(em: &mut Em, rng: &mut Rng) {
         Ok(m) => {
             let mm = m.clone();
             let margin = move |r: ArrayView1<f64>| top2_gap(&mm.predict_probabilities(&row2(r)).row(0).to_vec());
-            sweep_model::<f64, _, _>(em, rng, "logistic_multinomial", &m, &pool, &ustr, &margin)
+            sweep_model::<f64, _, _>(em, rng, "logistic_multinomial", &m, &pool, &ustr, &margin);
+            // the un-normalised scores `x.W + b` the arg-max is taken of, computed as the model computes them
+            let sc = pool.dot(m.params()) + m.intercept();
+            let cls: Vec<usize> = m.classes().to_vec();
+            table_case(em, "logistic_multinomial", &sc, &|| m.predict(&pool).iter().map(|l| cls.iter().position(|c| c == l).unwrap_or(usize::MAX)).collect());
         }
         Err(_) => fail_fit(em, "logistic_multinomial"),
     }
@@ -759,6 +810,8 @@ fn one_round(em: &mut Em, rng: &mut Rng) {
                 let margin = move |r: ArrayView1<f64>| (mm.weighted_sum(&r) - mm.rho).abs();
                 let ck = format!("svm_class_{}{}", kname, if nu { "_nu" } else { "" });
                 sweep_model::<f64, _, _>(em, rng, &ck, &m, &pool, &bstr, &margin);
+                let dec: Array1<f64> = pool.rows().into_iter().map(|r| m.weighted_sum(&r) - m.rho).collect();
+                thresh_case(em, "svm_class", &dec, 0.0, &|| m.predict(&pool).to_vec());
                 single_forms::<f64>(em, &ck, &pool, &|q| bstr(&m.predict(q)), &|r, owned| if owned { vec![V::D(m.predict(r.to_owned()).to_string())] } else { vec![V::D(m.predict(r).to_string())] });
             }
             Err(_) => fail_fit(em, &format!("svm_class_{}{}", kname, if nu { "_nu" } else { "" })),
@@ -1013,7 +1066,9 @@ fn one_round_f32(em: &mut Em, rng: &mut Rng) {
                     })
                     .collect();
                 let g = top2_gap(&jll);
-                if !readable { f64::INFINITY } else if g.is_finite() { g * 1e-4 } else { 0.0 }
+                // f32 joint log-likelihoods reach 1e2..1e3 (rounding ~1e-4) and `sum_axis` reduces in another
+                // order on a column-major batch: skip below a 1e-3 gap (the skips are under a ceiling)
+                if !readable { f64::INFINITY } else if g.is_finite() { g * 1e-6 } else { 0.0 }
             };
             sweep_model::<f32, _, _>(em, rng, "f32:gaussian_nb", &m, &pool, &ustr, &margin)
         }
@@ -1321,6 +1376,17 @@ fn ceilings(em: &mut Em) {
                 let cmp = dist.get(&format!("cmp_same_layout:{}", kind)).copied().unwrap_or(0);
                 let cap = 3.max(cmp / 100);
                 ctx.require(*v <= cap, "rowwise_bits_ceiling", kind, || format!("{} of {} comparisons of a row with itself in another batch of the same layout (alone / permuted / duplicated) agree within the tolerance only, not bit for bit (ceiling {}; none on the unchanged tree): the rows of a batch are coupled at rounding level", v, cmp, cap));
+            }
+            // cells of the `mc` / `kmeans` / `table` ops written as a SET of tied candidates (the mask of the
+            // tie-break): the share of such cells stays near what the generators produce on the unchanged
+            // tree (mc ~ 0.18 by construction of the probability levels, kmeans ~ 0.02: lattice queries
+            // equidistant from two fitted centroids) — degenerate centroids / constant member
+            // probabilities would otherwise mask every cell
+            for (op, cap_pct) in [("mc", 45u64), ("kmeans", 10u64)] {
+                if key == &format!("{}:tied_cells", op) {
+                    let cells = dist.get(&format!("{}:cells", op)).copied().unwrap_or(0);
+                    ctx.require(*v * 100 <= cap_pct * cells.max(1), "tie_set_ceiling", op, || format!("{} of {} cells are written as a set of tied candidates (ceiling {} %)", v, cells, cap_pct));
+                }
             }
             if let Some(kind) = key.strip_prefix("margin_unreadable:") {
                 ctx.fail("margin_readable", kind, format!("the class statistics behind the decision margin could not be read from the model's serde image ({} fits)", v));
